@@ -492,9 +492,11 @@ func checkMain(args []string) int {
 					repro = true
 				}
 			}
-			if out.End == "done" && len(out.Failed) > 0 {
+			if (out.End == "done" || (out.End == "mismatch" && strings.Contains(out.Msg, "choices exhausted"))) && len(out.Failed) > 0 {
 				// the native run of the very inputs the monitor fired on fails an assertion (e.g.
-				// the destination received recycled bytes): the misbehaviour is observable
+				// the destination received recycled bytes): the misbehaviour is observable.  (The
+				// engine's path ends where the monitor fires, so the native run may ask for a
+				// choice the path never made: what it had observed by then still counts.)
 				repro = true
 			}
 			if !repro && twiceRuns[v.Harness] < 3 {
